@@ -53,6 +53,7 @@ Ok(t)        == [allowed |-> {"ok"}, t |-> t, regime |-> "spec", val |-> 0]
 OkVal(t, v)  == [allowed |-> {"ok"}, t |-> t, regime |-> "spec", val |-> v]
 Fail(cls, t) == [allowed |-> cls,    t |-> t, regime |-> "spec", val |-> 0]
 InvErr(t)    == [allowed |-> AnyErr, t |-> t, regime |-> "inv",  val |-> 0]   \* must fail, effect only well-formed
+InvNF(t)     == [allowed |-> NF,     t |-> t, regime |-> "inv",  val |-> 0]   \* must fail as not-found, effect only well-formed
 InvAny(t)    == [allowed |-> AnyErr \cup {"ok"}, t |-> t, regime |-> "inv", val |-> 0]
 Unspec(t)    == [allowed |-> AnyErr \cup {"ok"}, t |-> t, regime |-> "unspec", val |-> 0]
 
@@ -103,14 +104,19 @@ RemoveDirAll(t, p) ==
   ELSE InvAny(t)
 
 \* transfers inside ONE filesystem instance (two instances: VfsTree2)
+\* C12: a SOURCE missing from an existing directory is classified as not-found whenever nothing else is wrong
+\* with the call (destination free, its parent a directory)
+SrcMissing(t, s, d) == t[s].k = "none" /\ IsDirAt(t, Parent(s)) /\ t[d].k = "none" /\ IsDirAt(t, Parent(d))
 CopyFile(t, s, d) ==
-  IF t[s].k = "dir" THEN InvAny(t)                         \* wrong-typed source: left unspecified by C01
+  IF SrcMissing(t, s, d) THEN InvNF(t)
+  ELSE IF t[s].k = "dir" THEN InvAny(t)                         \* wrong-typed source: left unspecified by C01
   ELSE IF t[d].k # "none" THEN Fail(AnyErr, t)             \* existing destination: refused, no side effect (C11)
   ELSE IF t[s].k = "none" \/ ~IsDirAt(t, Parent(d)) THEN InvErr(t)
   ELSE Ok([t EXCEPT ![d] = t[s]])
 
 MoveFile(t, s, d) ==
-  IF t[s].k = "dir" THEN InvAny(t)
+  IF SrcMissing(t, s, d) THEN InvNF(t)
+  ELSE IF t[s].k = "dir" THEN InvAny(t)
   ELSE IF t[d].k # "none" THEN Fail(AnyErr, t)
   ELSE IF t[s].k = "none" \/ ~IsDirAt(t, Parent(d)) THEN InvErr(t)
   ELSE Ok([t EXCEPT ![d] = t[s], ![s] = Absent])
@@ -120,7 +126,8 @@ Fits(t, s, d) == \A q \in Desc(t, s) : ReRoot(q, s, d) \in Universe
 Copied(t, s, d, q) == LET o == ReRoot(q, d, s) IN IF o \in Universe THEN t[o] ELSE Absent
 
 CopyDir(t, s, d) ==
-  IF t[s].k = "file" THEN InvAny(t)
+  IF SrcMissing(t, s, d) THEN InvNF(t)
+  ELSE IF t[s].k = "file" THEN InvAny(t)
   ELSE IF t[d].k # "none" THEN Fail(AnyErr, t)
   ELSE IF t[s].k = "none" \/ ~IsDirAt(t, Parent(d)) THEN InvErr(t)
   ELSE OkVal([q \in Universe |-> IF q = d THEN Dir
@@ -129,7 +136,8 @@ CopyDir(t, s, d) ==
              Cardinality(Desc(t, s)))
 
 MoveDir(t, s, d) ==
-  IF t[s].k = "file" THEN InvAny(t)
+  IF SrcMissing(t, s, d) THEN InvNF(t)
+  ELSE IF t[s].k = "file" THEN InvAny(t)
   ELSE IF t[d].k # "none" THEN Fail(AnyErr, t)
   ELSE IF t[s].k = "none" \/ ~IsDirAt(t, Parent(d)) THEN InvErr(t)
   ELSE Ok([q \in Universe |-> IF q = d THEN Dir
